@@ -511,6 +511,7 @@ class CuckooSystem(System):
         cref.cuckoo_c06(cfg, f, _table(f, counting), counting, _keys(cfg), blob, bad)
 
     def _queries(self, cfg, st, bad):
+        pristine = self.clone(st)  # taken before any query of this state: the "untouched" twin
         f = st.impl
         counting = cfg["cls"] == "counting"
         keys = _keys(cfg)
@@ -550,7 +551,7 @@ class CuckooSystem(System):
                 if a1 != a2:
                     bad("C19", "cuckoo.answers_independent_of_earlier_queries", {"live": repr(a1)[:300], "fresh_load": repr(a2)[:300]})
         if self.cur_depth <= cfg.get("twin_depth", 2):
-            div = twin_divergence(self, cfg, st, lambda q: ro(q.impl),
+            div = twin_divergence(self, cfg, pristine, lambda q: ro(q.impl),
                                   lambda x: (_table(x.impl, counting), x.impl.elements_added, x.impl.capacity))
             if div is not None:
                 bad("C19", "cuckoo.queried_twin_diverges_one_step_later", div)
